@@ -185,6 +185,12 @@ func (d *Drv) DoTx(in Input, raw []byte, extra []*Key) (o Outcome, decoded bool)
 	c.Count("kind:" + in.Kind)
 	c.Count(fmt.Sprintf("sets:%d", len(o.Tx.Sigs)))
 	hash := o.Tx.Hash()
+	d.W.P.BeginCase()
+	for _, g := range o.Tx.Sigs {
+		for _, sb := range linearPushes(g.Invoke) {
+			d.W.P.Local(sb)
+		}
+	}
 	tables, abs, views := d.W.Tables(o.Tx, extra, "h")
 	for _, v := range views {
 		if v.Parsed {
@@ -203,7 +209,8 @@ func (d *Drv) DoTx(in Input, raw []byte, extra []*Key) (o Outcome, decoded bool)
 	if d.NoCase {
 		return
 	}
-	c.Case(fmt.Sprintf("(let h := %s in CCheck %s %s %s %s)", d.W.P.CB(hash[:]), d.W.VtxCoq(o.Tx, "h"), tables, o.Obs, o.Code), in)
+	c.Case(d.W.P.WrapCase(fmt.Sprintf("let h := %s in CCheck %s %s %s %s", d.W.P.CB(hash[:]), d.W.VtxCoq(o.Tx, "h"), tables, o.Obs, o.Code)), in)
+	d.W.P.BeginCase()
 	budget := d.AbsBudget
 	if in.Base != "" {
 		budget = 1
